@@ -68,9 +68,16 @@ TINY = [2.0 ** -30, -(2.0 ** -30), 3 * 2.0 ** -40, -(2.0 ** -27), 2.0 ** -60, 2.
 
 
 @st.composite
-def array_spec(draw, size, dtype, fuzzy=False, pool=None, mask_kind=None, payload=True, wide=False, tiny=False):
-    if fuzzy:
+def array_spec(draw, size, dtype, fuzzy=False, pool=None, mask_kind=None, payload=True, wide=False, tiny=False, fuzzy_wild=False, pool_only=False, big_ints=False):
+    if fuzzy and fuzzy_wild:
+        # a result declared fuzzy by whatever produced it (a reader, a plug-in command) need not respect the range
+        base = st.one_of(lattice_floats(-1, 1), lattice_floats(-4, 4), st.sampled_from([1e6, -250.0]))
+    elif fuzzy:
         base = lattice_floats(-1, 1)
+    elif dtype == "int64" and big_ints:
+        # integers whose pairwise products leave the range in which doubles are exact (2^53) while products with the
+        # small values of up to three further inputs stay inside the 64-bit integers
+        base = st.one_of(lattice_ints(), lattice_ints(), lattice_ints(), st.sampled_from([100000001, -94906267, 94906266]))
     elif dtype.startswith("int"):
         base = lattice_ints()
     elif wide:
@@ -81,7 +88,7 @@ def array_spec(draw, size, dtype, fuzzy=False, pool=None, mask_kind=None, payloa
         base = st.one_of(lattice_floats(), lattice_floats(), st.sampled_from(TINY))
     else:
         base = lattice_floats()
-    elems = base if not pool else st.one_of(st.sampled_from(pool), base)
+    elems = base if not pool else (st.sampled_from(pool) if pool_only else st.one_of(st.sampled_from(pool), base))
     data = draw(st.lists(elems, min_size=size, max_size=size))
     if dtype.startswith("int"):
         data = [int(x) for x in data]
@@ -140,6 +147,9 @@ def params_for(draw, cmd, n, pool, wild=False):
     p = {}
     if cmd in ("WeightedSum", "WeightedMean", "FuzzyWeightedUnion"):
         w = draw(st.lists(st.one_of(st.integers(-2, 5), st.integers(-8, 16).map(lambda k: k / 4.0)), min_size=n, max_size=n))
+        if n >= 2 and draw(st.integers(0, 3)) == 0:
+            w = list(w)
+            w[draw(st.integers(1, n - 1))] = 0  # an input that does not count towards the value: its missing cells still do
         zero_sum = draw(st.integers(0, 7)) == 0
         if zero_sum:
             # weights that cancel exactly: a weighted mean then divides by zero in every cell (all cells missing)
@@ -232,7 +242,7 @@ def arity(cmd):
 
 @st.composite
 def unit_case(draw, cmds, max_rank=1, dtypes=("float64", "int64"), wild=False, mask_kind=None, min_cells=1,
-              max_cells=24, wide=False, same_dtype=False, two_distinct=False, tiny=False, close=False):
+              max_cells=24, wide=False, same_dtype=False, two_distinct=False, tiny=False, close=False, fuzzy_wild=False):
     cmd = draw(st.sampled_from(list(cmds)))
     n = draw(arity(cmd))
     if max_rank == 1:
@@ -245,18 +255,23 @@ def unit_case(draw, cmds, max_rank=1, dtypes=("float64", "int64"), wild=False, m
     fuzzy = cmd in R.FUZZY_INPUT
     pool_src = lattice_floats(-1, 1) if fuzzy else lattice_floats()
     pool = draw(st.lists(pool_src, min_size=1, max_size=4))
+    close_used = False
     if close and not fuzzy and draw(st.integers(0, 5)) == 0:
+        close_used = True  # such values go with double precision only: single precision cannot tell them apart reliably
         # distinct values that a tolerant comparison (numpy.isclose: rtol 1e-5, atol 1e-8) would take for equal
         pool = draw(st.sampled_from([[250001.0, 250002.0, 250003.0], [1.0, 1.000001, 0.999999], [1048576.0, 1048577.0, 1048575.0, 2.0]]))
     arrays = []
     first_dtype = None
     for i in range(n):
         dtype = draw(st.sampled_from([d for d in dtypes if d.startswith("float")] or ["float64"])) if fuzzy else draw(st.sampled_from(list(dtypes)))
+        if close_used:
+            dtype = {"float32": "float64", "int32": "int64"}.get(dtype, dtype)
         if same_dtype and first_dtype:
             dtype = first_dtype
         first_dtype = first_dtype or dtype
         use_pool = [int(x) for x in pool] if dtype.startswith("int") else pool
-        spec = draw(array_spec(size, dtype, fuzzy=fuzzy, pool=use_pool, mask_kind=mask_kind, wide=wide and not fuzzy, tiny=tiny))
+        spec = draw(array_spec(size, dtype, fuzzy=fuzzy, pool=use_pool, mask_kind=mask_kind, wide=wide and not fuzzy, tiny=tiny, fuzzy_wild=fuzzy_wild,
+                               pool_only=close_used and draw(st.booleans()), big_ints=tiny and i < 2))
         if two_distinct and size >= 2:
             m = spec["mask"] or [0] * size
             if len(set(x for x, mm in zip(spec["data"], m) if not mm)) < 2:
